@@ -341,6 +341,22 @@ def main(argv):
             proof_broken = "Print Assumptions failed: " + aout[-300:]
         elif notallowed:
             proof_broken = "axioms outside the allow-list: %s" % notallowed
+    # thorough tier: the independent checker re-checks the compiled props file and everything it depends on
+    if ok_build and not proof_broken and tier == "thorough":
+        t1 = time.time()
+        try:
+            r = subprocess.run(["coqchk", "-silent", "-o", "-Q", "theories", "MLA", "-Q", "gen", "MLAGen", "-Q", "props", "MLAProps", "MLAProps." + pid],
+                               cwd=os.path.join(VERIF, "coq"), capture_output=True, text=True, timeout=3000)
+            txt = r.stdout + r.stderr
+            clean = (r.returncode == 0 and "* Axioms: <none>" in txt and "relying on type-in-type: <none>" in txt
+                     and "relying on unsafe (co)fixpoints: <none>" in txt and "positivity is assumed: <none>" in txt)
+            log("coqchk -o MLAProps.%s: %s (%.0fs)" % (pid, "axioms <none>, no type-in-type, no unsafe fixpoints, positivity checked" if clean else "NOT CLEAN", time.time() - t1))
+            if not clean:
+                proof_broken = "coqchk does not accept props/%s.vo as closed: %s" % (pid, txt[-400:])
+            else:
+                trusted.append("coqchk -o (the independent checker) re-checked props/%s.vo and its whole cone in this run: Axioms <none>" % pid)
+        except (OSError, subprocess.TimeoutExpired) as e:
+            log("coqchk could not be run: %s" % e)
     bad = forbidden_scan()
     if bad:
         proof_broken = (proof_broken or "") + " forbidden constructs: " + "; ".join(bad[:5])
